@@ -30,15 +30,15 @@ def split(cargo_ver: str) -> T.Iterable[tuple[str, str]]:
         return
     for ver in cargo_ver.split(','):
         ver = ver.strip()
-        if ver == '*':
+        if ver in {'*', 'x', 'X'}:
             continue
 
         if ver.startswith(('>=', '<=', '!=')):
             yield ver[0:2], ver[2:].lstrip()
         elif ver.startswith(('~', '=', '^', '>', '<')):
             yield ver[0], ver[1:].lstrip()
-        elif ver.endswith('.*'):
-            # asterisk requirements are same as tilde: 1.* == ~1
+        elif ver.endswith(('.*', '.x', '.X')):
+            # asterisk requirements (also spelled x or X) are same as tilde: 1.* == ~1
             # https://doc.rust-lang.org/cargo/reference/specifying-dependencies.html#wildcard-requirements
             yield '~', ver[:-2].lstrip()
         else:
@@ -214,9 +214,13 @@ def cargo_parse(cargo_ver: str) -> T.Callable[[str], bool]:
 
         # https://doc.rust-lang.org/cargo/reference/specifying-dependencies.html#comparison-requirements
         if op == '<=':
-            # Bump the last *specified* component and convert to `<`.
-            nextver = semver.next_ver(semver.specified_count - 1)
-            out.append((operator.lt, nextver))
+            if semver.has_prerelease:
+                # A pre-release is an exact bound: 1.0.0 is not <= 1.0.0-beta.
+                out.append((operator.le, semver))
+            else:
+                # Bump the last *specified* component and convert to `<`.
+                nextver = semver.next_ver(semver.specified_count - 1)
+                out.append((operator.lt, nextver))
 
         elif op == '~':
             # Tilde requirements are the same as asterisk, so 1.* == ~1
